@@ -2,11 +2,11 @@
 Operations of the core as a type, reachable states, and the frame of the RTO fields.
 Core Lean only.
 -/
-import KcpVerif.Lemmas.KcpFlush
+import KcpVerif.Lemmas.KcpLiveFlush
 import KcpVerif.Lemmas.KcpInput
 
-namespace KcpVerif.Kcp
-open KcpVerif KcpVerif.Gen
+namespace KcpVerif.Live
+open KcpVerif KcpVerif.Gen KcpVerif.Kcp
 
 /-- the state-changing operations of the core with all their arguments (`PeekSize`, `Check`,
 `WaitSnd` only read) -/
@@ -147,4 +147,4 @@ theorem RtoInv.of_same {a b : Kcp} (h : RtoSame a b) (hb : RtoInv b) : RtoInv a 
 
 theorem run_cons (k : Kcp) (op : Op) (rest : List Op) : run k (op :: rest) = run (step k op) rest := rfl
 
-end KcpVerif.Kcp
+end KcpVerif.Live
